@@ -780,9 +780,9 @@ def known_finding_witnesses(sc):
     pkg.defs.append({"kind": "record", "name": "R", "tparams": [], "fields": [("flags", ("vec", P("bool"), None))]})
     pkg.defs.append({"kind": "protocol", "name": "P", "steps": [("a", ("named", "R", []), False), ("bits", P("bool"), True)]})
     yield Job("witness:vector-of-bool", sc.path("kf-vbool"), pkg=pkg, manifest_extra=OPTION_SETS[1][1], compile_cpp=True, ndjson=False, namespace="Kf4")
-    pkg = modelgen.Package("Kf3")
-    pkg.defs.append({"kind": "record", "name": "G", "tparams": ["T"], "fields": [("a", ("arr", ("arr", ("opt", ("tparam", "T")), ("fixed", [2], None)), ("rank", 1, None)))]})
-    pkg.defs.append({"kind": "protocol", "name": "P", "steps": [("a", ("vec", ("named", "G", [P("int32")]), None), False)]})
+    kf3 = modelgen.Package("Kf3")
+    kf3.defs.append({"kind": "record", "name": "G", "tparams": ["T"], "fields": [("a", ("arr", ("arr", ("opt", ("tparam", "T")), ("fixed", [2], None)), ("rank", 1, None)))]})
+    kf3.defs.append({"kind": "protocol", "name": "P", "steps": [("a", ("vec", ("named", "G", [P("int32")]), None), False)]})
     yield Job("witness:derived-names", sc.path("kf-derived"), model_text=DERIVED_NAMES_MODEL, manifest_extra=OPTION_SETS[2][1], compile_cpp=True, ndjson=True, namespace="Kf5")
     yield Job("cross:use-before-declaration", sc.path("use-before-decl"), model_text=USE_BEFORE_DECLARATION_MODEL, manifest_extra=OPTION_SETS[2][1], compile_cpp=True, ndjson=True,
               namespace="OrderNs", exercise=True)
@@ -793,7 +793,7 @@ def known_finding_witnesses(sc):
     yield Job("witness:open-generic-union-with-generic-case", sc.path("kf-gunion"), model_text=("Pair<T>: !record\n  fields:\n    a: T\n    b: T\nG<T>: !record\n  fields:\n    u: !union {p: Pair<T>, s: string}\n"
                                                                                                "P: !protocol\n  sequence:\n    g: G<int>\n"),
               manifest_extra=OPTION_SETS[2][1], compile_cpp=True, ndjson=True, namespace="Kf6")
-    yield Job("witness:type-parameter-only-in-array", sc.path("kf-array"), pkg=pkg, manifest_extra=OPTION_SETS[4][1], namespace="Kf3")
+    yield Job("witness:type-parameter-only-in-array", sc.path("kf-array"), pkg=kf3, manifest_extra=OPTION_SETS[4][1], namespace="Kf3")
 
 
 def init_scaffolds(sc, ybin, quick):
